@@ -116,6 +116,21 @@ def py_repeat(st, s, n):
     return t
 
 
+_STRIP = {}
+
+
+def py_strip(st, s, which="strip"):
+    """str.strip()/lstrip() as function symbols (whitespace trimming); only equal-by-construction reasoning plus
+    idempotence and 'result is not longer' are available"""
+    if which not in _STRIP:
+        _STRIP[which] = z3.Function("py_" + which, z3.StringSort(), z3.StringSort())
+    t = _STRIP[which](s)
+    if st is not None:
+        st.assume(z3.Length(t) <= z3.Length(s))
+        st.assume(_STRIP[which](t) == t)
+    return t
+
+
 _LOWER = []
 
 
@@ -357,7 +372,7 @@ class Engine:
                     if attr in ci.properties:
                         raise ToolLimit(f"property {attr}")
                 raise ToolLimit(f"attribute {attr!r} of {cell.cls} object not declared in the class contract")
-            if isinstance(cell, (CList, SList)):
+            if isinstance(cell, (CList, SList, AList)):
                 return V(FN, ("listmethod", attr, base))
             if isinstance(cell, Map):
                 return V(FN, ("mapmethod", attr, base))
@@ -1623,6 +1638,12 @@ class _CallMixin:
     # ---------------------------------------------------------------- list / str / map methods
     def call_listmethod(self, attr, base, pos, kw, st, node):
         cell = st.heap[base.t]
+        if attr == "append" and len(pos) == 1 and isinstance(cell, AList):
+            if pos[0].k != cell.ek:
+                raise ToolLimit("append of a different kind to a typed list")
+            st.heap[base.t] = AList(z3.Store(cell.arr, cell.n, pos[0].t), cell.n + 1, cell.ek)
+            yield st, VNONE
+            return
         if attr == "append" and len(pos) == 1:
             if isinstance(cell, CList):
                 st.heap[base.t] = CList(cell.items + (pos[0],))
@@ -1711,6 +1732,9 @@ class _CallMixin:
             return
         if attr == "rstrip" and not pos:
             yield st, vstr(py_rstrip(st, s))
+            return
+        if attr in ("strip", "lstrip") and not pos:
+            yield st, vstr(py_strip(st, s, attr))
             return
         if attr == "lower" and not pos:
             yield st, vstr(py_lower(st, s))
@@ -2432,6 +2456,9 @@ class _StmtMixin:
             ek = (spec or {}).get("list_kinds", {}).get(n)
             if isinstance(cell, SList):
                 st.heap[cur.t] = SList(z3.Const(f"{n}!{self.fresh_id()}", cell.seq.sort()), cell.ek)
+            elif isinstance(cell, AList):
+                fid = self.fresh_id()
+                st.heap[cur.t] = AList(z3.Const(f"{n}!{fid}.arr", cell.arr.sort()), z3.Int(f"{n}!{fid}.len"), cell.ek)
             elif isinstance(cell, CharList):
                 st.heap[cur.t] = CharList(z3.String(f"{n}!{self.fresh_id()}"))
             elif isinstance(cell, CList) and ek:
@@ -2479,6 +2506,16 @@ class _StmtMixin:
         """Lists that the loop mutates (declared in list_kinds) are represented as Seq from here on."""
         for n, ek in (spec.get("list_kinds") or {}).items():
             v = st.locals.get(n)
+            if ek.startswith("alist:") and v is not None and v.k == REF and isinstance(st.heap[v.t], CList):
+                ek2 = ek[6:]
+                items = st.heap[v.t].items
+                if not all(x.k == ek2 for x in items):
+                    raise ToolLimit(f"list {n} holds elements that are not {ek2}")
+                arr = z3.K(z3.IntSort(), z3.StringVal("") if ek2 == STR else z3.IntVal(0) if ek2 == INT else z3.RealVal(0))
+                for j, x in enumerate(items):
+                    arr = z3.Store(arr, j, x.t)
+                st.heap[v.t] = AList(arr, z3.IntVal(len(items)), ek2)
+                continue
             if v is not None and v.k == REF and isinstance(st.heap[v.t], CList):
                 items = st.heap[v.t].items
                 if not all(x.k == ek for x in items):
@@ -2660,9 +2697,10 @@ class _StmtMixin:
         old_st = self.unit_pre
         tnames = [n.id for n in ast.walk(s.target) if isinstance(n, ast.Name)]
         i0 = vint(lo)
+        iname = spec.get("index_name", "i")
         self.lists_to_seq(spec, st)
         names0 = self.loop_names(st, spec, vint(0))
-        names0["i"] = i0
+        names0[iname] = i0
         self.check_inv(spec, st, names0, old_st, "inv-init", ordinal)
         self.havoc_loop(s.body, st, spec)
         for n in tnames:
@@ -2672,7 +2710,7 @@ class _StmtMixin:
         st.assume(z3.And(i.t >= lo, i.t <= upper))
         k = vint(i.t - lo)
         nm = self.loop_names(st, spec, k)
-        nm["i"] = i
+        nm[iname] = i
         self.assume_inv(spec, st, nm, old_st)
         for s3, taken in self.fork(st, i.t < hi):
             if not taken:
@@ -2689,7 +2727,7 @@ class _StmtMixin:
                     if o2[0] in ("next", "continue"):
                         i1 = vint(i.t + 1)
                         nm1 = self.loop_names(s5, spec, vint(i.t + 1 - lo))
-                        nm1["i"] = i1
+                        nm1[iname] = i1
                         for n in tnames:
                             nm1.pop(n, None)
                         self.check_inv(spec, s5, nm1, old_st, "inv-step", ordinal)
